@@ -92,7 +92,38 @@ UnitVals == {0, 1, 5, 999, 1000, 1001, 1023, 1024, 1025, 1500, 1536, 2047, 2048,
 Groups == {"int2", "int3", "intnoise", "intbig", "arity", "flt", "powsqrt", "bucket", "bucketbig", "clamp",
            "expbucket", "hi", "hf", "csv1", "csv2", "csv3", "logic", "cond", "eq", "type", "compare",
            "str1", "contains", "substr", "select", "tab", "format", "floorceil", "round", "percent", "unit",
-           "lookup", "path"}
+           "lookup", "path", "condws", "bignum"}
+
+\* ---- whitespace-only values in every White_Space code point, alone and mixed with the ASCII blanks, and near misses
+U(cps) == U8EncodeAll(cps)
+WsOnly == {U(<<w>>) : w \in U8WS} \cup {U(<<a, b>>) : a \in {32, 9, 160, 8195, 12288}, b \in {133, 160, 5760, 8192, 8202, 8232, 8233, 8239, 8287, 12288, 10}}
+          \cup {U(<<32, 160, 9>>), U(<<12288, 32, 8201, 133>>), U(<<160, 160, 160>>), U(<<10, 8233, 13, 5760, 32>>)}
+WsNearMiss == {U(<<8203>>), U(<<65279>>), U(<<6158>>), U(<<132>>), U(<<173>>), U(<<160, 8203>>),        \* not classified
+               U(<<161>>), U(<<233>>), U(<<160, 120>>), U(<<12288, 19990>>), U(<<8232, 97, 8233>>), U(<<32, 160, 48>>),   \* visible
+               <<160>>, <<133>>, <<194>>, <<32, 160>>, <<226, 128>>, <<192, 160>>, <<194, 160, 194>>}    \* ill-formed
+WsPool == WsOnly \cup WsNearMiss
+
+\* ---- numbers beyond the 32 bit model that binary64 holds exactly (m * 2^k, powers of ten, dyadic fractions), and some it does not
+BigN(m, k) == BnFmt(BnShl(BnOfInt(m), k), 0)
+BigInts == {BigN(m, k) : m \in {1, 3, 5, 999999999}, k \in {31, 32, 40, 52, 53, 62, 63, 64, 65, 70, 100}}
+           \cup {BigN(m, 0) \o BnZeros(z) : m \in {1, 5, 25, 123}, z \in {9, 12, 18, 19, 20, 22}}
+           \cup {<<57, 50, 50, 51, 51, 55, 50, 48, 51, 54, 56, 53, 52, 55, 55, 53, 56, 48, 55>> (* 2^63 - 1: not a binary64 value *),
+                 <<57, 50, 50, 51, 51, 55, 50, 48, 51, 54, 56, 53, 52, 55, 55, 52, 55, 56, 52>> (* 2^63 - 1024 *),
+                 <<49, 56, 52, 52, 54, 55, 52, 52, 48, 55, 51, 55, 48, 57, 53, 53, 49, 54, 49, 53>> (* 2^64 - 1 *),
+                 <<49>> \o BnZeros(23), <<57, 48, 48, 55, 49, 57, 57, 50, 53, 52, 55, 52, 48, 57, 57, 51>> (* 2^53 + 1 *)}
+BigFracs == {BigN(m, k) \o fr : m \in {1, 3, 999999999}, k \in {31, 40, 48, 50, 51},
+                               fr \in {<<DOT, 53>>, <<DOT, 50, 53>>, <<DOT, 55, 53>>, <<DOT, 49, 50, 53>>, <<DOT, 56, 55, 53>>}}
+            \cup {<<49, 50, 51, 52, 53, 54, 55, 56, 57, 48, DOT, 53>>, <<49, 50, 51, 52, 53, 54, 55, 56, 57, 48, DOT, 49>>,
+                  <<48, DOT, 49, 48, 48, 48, 48, 48, 48, 48, 48, 49>>, <<48, DOT, 48, 48, 48, 57, 55, 54, 53, 54, 50, 53>> (* 2^-10 *)}
+BigPool == BigInts \cup BigFracs \cup {<<MINUS>> \o t : t \in BigInts \cup BigFracs}
+Ex(m, e) == m \o <<101>> \o Itoa(e)
+ExpForms == {Ex(m, e) : m \in {<<49>>, <<45, 49>>, <<53>>, <<49, DOT, 53>>, <<50, 53>>, <<57, DOT, 50, 50, 51, 51, 55, 50, 48, 51, 54, 56, 53, 52, 55, 55, 53, 56, 48, 56>>},
+                        e \in {0 - 2, 0 - 1, 0, 1, 2, 9, 15, 18, 19, 20, 22, 23, 30}}
+            \cup {<<49, 69, 43, 49, 57>> (* 1E+19 *), <<49, 101, 43, 50, 50>> (* 1e+22 *), <<49, DOT, 101, 51>> (* 1.e3 *),
+                  <<DOT, 53, 101, 49>> (* .5e1 *), <<49, 101>>, <<101, 53>>, <<49, 101, 49, 101, 49>>, <<49, 101, 49, 48, 48>> (* 1e100 *)}
+NonFinite == {<<105, 110, 102>>, <<43, 73, 110, 102>>, <<45, 105, 110, 102>>, <<45, 73, 110, 102>>, <<73, 78, 70>>,
+              <<105, 110, 102, 105, 110, 105, 116, 121>>, <<45, 73, 110, 102, 105, 110, 105, 116, 121>>,
+              <<78, 97, 78>>, <<110, 97, 110>>, <<43, 110, 97, 110>>}
 
 Cases(g) ==
   CASE g = "int2" -> Calls2(F7, I((0 - R1)..R1), I((0 - R1)..R1))
@@ -176,6 +207,16 @@ Cases(g) ==
     [] g = "lookup" -> Calls2({"lookup", "haskey"}, Keys, {Tbl1, Tbl2, Tbl3, E})
                        \cup Calls3({"lookup", "haskey"}, Keys, {Tbl1, Tbl3}, {<<35>>, E, <<107, 49>>, <<35, 99>>})
     [] g = "path" -> Calls1({"basename", "dirname", "extname"}, Paths)
+    [] g = "condws" -> Calls2({"if", "unless", "switch"}, WsPool, {Sx}) \cup Calls3({"if", "switch"}, WsPool, {Sx}, {Sy, E})
+                       \cup {Call("switch", <<a, Sx, b, Sy>>) : a \in {E, U(<<160>>), U(<<12288, 32>>)}, b \in WsPool}
+                       \cup {Call("switch", <<a, Sx, b, Sy, <<122>>>>) : a \in {U(<<8232>>), U(<<133>>)}, b \in WsPool}
+                       \cup Calls1({"not"}, WsPool) \cup Calls2({"and", "or"}, WsPool, {Sa, E})
+                       \cup Calls2({"coalesce"}, WsOnly, {Sa})
+                       \cup Calls1({"len", "upper", "lower"}, {U(<<160>>), U(<<32, 12288>>)})
+    [] g = "bignum" -> Calls1({"floor", "ceil", "round"}, BigPool \cup NonFinite \cup ExpForms)
+                       \cup Calls2({"round"}, ExpForms, I({0, 2}))
+                       \cup Calls2({"round"}, BigPool \cup NonFinite, I({0, 1, 2, 3}))
+                       \cup Calls1({"floor", "ceil", "round"}, {DecStr(m, s) : m \in {5, 15, 25, 35, 0 - 15, 0 - 25, 125, 375, 0 - 125, 1005, 2675}, s \in 1..3})
 
 Init == vec \in {[hdr |-> TRUE, g |-> g, f |-> "", args |-> <<>>] : g \in Groups}
 Next == /\ vec.hdr
